@@ -30,7 +30,7 @@ TEXT = {
               "and forloop on normal end, break and continue (loop_restores), the include handler is handed exactly the includer's current "
               'variable map (include_sees_vars; that the engine\'s handler renders the file with it is C14) and the assignments of the included file do not flow back (include_isolated). Capture equivalence '
               '(capture_equiv, capture_equiv_root, capture_equiv_root_conv/_iff, capture_equiv_engine for the engine\'s own context, capture_equiv_root_err for a failing body: the same error re-wrapped at the capture tag, but the partial output F wrote before failing is not written by the capture form), for every context whose include handler renders into its own buffer (IncQuiet) and whose output layer prints a string as its bytes (both proved for the engine\'s), on a writer that does not fail: for every body that renders normally in place, '
-              'capture-then-print puts exactly the same bytes through the trim writer and leaves the same variables plus the '
+              'capture-then-print puts exactly the same bytes through the trim writer (the object prints the captured text as a value, through WriteVerbatim: all of it has reached the writer, nothing is pending afterwards) and leaves the same variables plus the '
               'captured one - in any state whose pending text has no trailing white space and whose trim flag is clear, in '
               'particular for whole templates, where the two render normally under exactly the same conditions; each of the two state '
               'conditions comes with a proved counterexample (capture_needs_no_trailing_space, capture_needs_flag_clear). '
